@@ -4,6 +4,7 @@ The parent chooses PYTHONHASHSEED (and passes VERIF_REPO_SRC through); this file
 component classes itself, so that dill pickles them as `probes.X`).  Output: one line `@@RESULT@@ <json>` on stdout.
 
 jobs:  {"mode": "envs",   "program": P, "envs": [env, ...]}          run P under each env, in this order, in THIS process
+       {"mode": "multi",  "items": [{"program": P, "envs": [...]}, ...]}   the same for several programs in a row
        {"mode": "backup", "program": P, "dir": D}                    reference run, then a run writing D/k.pkl at every k
        {"mode": "resume", "program": P, "path": F, "env": env}       dill.load(F) and continue to the end
 """
@@ -29,6 +30,19 @@ def main():
                 except BaseException as e:      # noqa: B902  (AssertionError from run_until included)
                     outs.append({"error": f"{type(e).__name__}: {e}", "tb": traceback.format_exc()[-1500:]})
             res["outs"] = outs
+        elif job["mode"] == "multi":
+            # several programs, one after another, in THIS process (sub-process start-up dominates the cost); a later
+            # program therefore also has the earlier ones as prior process history
+            multi = []
+            for item in job["items"]:
+                outs = []
+                for env in item["envs"]:
+                    try:
+                        outs.append(probes.run_program(item["program"], env))
+                    except BaseException as e:      # noqa: B902
+                        outs.append({"error": f"{type(e).__name__}: {e}", "tb": traceback.format_exc()[-1500:]})
+                multi.append(outs)
+            res["multi"] = multi
         elif job["mode"] == "backup":
             res["reference"] = probes.run_program(job["program"], {"driver": "manual"})
             res["with_backups"] = probes.run_program(job["program"], {"driver": "manual"}, backup_dir=job["dir"])
